@@ -19,10 +19,13 @@ package tests
 //   K <key>...                      keys looked up by a dump
 //   U <r> <idx> <cmd> [<idx> <cmd>]...  one Update call (kv: one call per entry, in order)
 //   L <r> <key>   S <r> (Sync)   P <r> (PrepareSnapshot -> ctx slot r)   V <r> (SaveSnapshot ctx slot r -> snapshot slot r)
-//   R <r> <r2> (RecoverFromSnapshot of r from snapshot slot r2)   O <r> (Close + new object + Open)
+//   R <r> <r2> [<chunk>] (RecoverFromSnapshot of r from snapshot slot r2; the reader hands out at most <chunk> bytes per Read)
+//   O <r> (Close + new object + Open)
 //   H <r> (GetHash)   D <r> (GetHash + Lookup of every K key)
 //   C <r> <nthr> <nkeys> <key>... <op of replica r>   the op runs while <nthr> goroutines call Lookup(key) on replica r in a
 //        loop (the statemachine contract allows Lookup concurrently with Update / SaveSnapshot / RecoverFromSnapshot / Close).
+//        Goroutine 0 loops from before the op until after it; the others start when the op is about to take effect (a
+//        restore: when it has read the last byte of the snapshot; else right before the call).
 //        Answer: C <lookups done> <answers seen for key 1, comma separated: hex value, "-", "err" or "panic:<msg>"> ... ; <answer of the op>
 //   END
 // Env VERIF_STREAM=1: "BEGIN <id>" is written (and flushed) when a case starts and the block of a case when it ends, so that the
@@ -85,6 +88,27 @@ type vkReplica struct {
 	snap []byte
 	hasS bool
 	dead bool
+	// called when RecoverFromSnapshot has read the last byte of the snapshot it is given (the swap to the restored
+	// state follows): lets the concurrent phase concentrate its lookups on the end of a restore
+	atEnd func()
+}
+
+type vkSigReader struct {
+	r     *bytes.Reader
+	fire  func()
+	chunk int // > 0: a Read returns at most that many bytes (io.Reader allows short reads)
+}
+
+func (s *vkSigReader) Read(p []byte) (int, error) {
+	if s.chunk > 0 && len(p) > s.chunk {
+		p = p[:s.chunk]
+	}
+	n, err := s.r.Read(p)
+	if s.fire != nil && s.r.Len() == 0 {
+		s.fire()
+		s.fire = nil
+	}
+	return n, err
 }
 
 func vkOpenDisk(r *vkReplica) (uint64, error) {
@@ -143,27 +167,15 @@ func (r *vkReplica) lookup(key []byte) (string, error) {
 	return vkEnc(v.([]byte)), nil
 }
 
-// lookup function bound to the CURRENT machine object of the replica (a Close+Open installs a new object)
-func (r *vkReplica) lookupFn() func(key []byte) (string, error) {
-	var f func(interface{}) (interface{}, error)
+// Lookup method of the CURRENT machine object of the replica (a Close+Open installs a new object)
+func (r *vkReplica) lookupFn() func(interface{}) (interface{}, error) {
 	switch r.kind {
 	case "kv":
-		f = r.kv.Lookup
+		return r.kv.Lookup
 	case "ckv":
-		f = r.ckv.Lookup
-	default:
-		f = r.dkv.Lookup
+		return r.ckv.Lookup
 	}
-	return func(key []byte) (string, error) {
-		v, err := f(key)
-		if err != nil {
-			return "", err
-		}
-		if v == nil {
-			return "-", nil
-		}
-		return vkEnc(v.([]byte)), nil
-	}
+	return r.dkv.Lookup
 }
 
 func vkMsg(e interface{}) string {
@@ -202,6 +214,9 @@ func vkConc(reps []*vkReplica, keys [][]byte, f []string) string {
 	look := r.lookupFn()
 	var started, stop int32
 	var total int64
+	burst := make(chan struct{})
+	var once sync.Once
+	fire := func() { once.Do(func() { close(burst) }) }
 	seen := make([][]map[string]struct{}, nthr)
 	var wg sync.WaitGroup
 	for t := 0; t < nthr; t++ {
@@ -213,6 +228,7 @@ func vkConc(reps []*vkReplica, keys [][]byte, f []string) string {
 		go func(t int) {
 			defer wg.Done()
 			cur, first, n := 0, true, int64(0)
+			prev := make([][]byte, nk) // last answer per key: only a new answer is recorded
 			defer func() {
 				if e := recover(); e != nil {
 					seen[t][cur]["panic:"+vkMsg(e)] = struct{}{}
@@ -222,17 +238,30 @@ func vkConc(reps []*vkReplica, keys [][]byte, f []string) string {
 				}
 				atomic.AddInt64(&total, n)
 			}()
+			if t > 0 {
+				<-burst
+			}
 			for last := false; ; {
 				for j := 0; j < nk; j++ {
 					cur = (j + t) % nk
-					v, err := look(ck[cur])
+					x, err := look(ck[cur])
+					n++
+					var v string
 					if err != nil {
 						v = "err"
+					} else if x == nil {
+						v = "-"
+					} else {
+						b := x.([]byte)
+						if prev[cur] != nil && bytes.Equal(b, prev[cur]) {
+							continue
+						}
+						prev[cur] = append(make([]byte, 0, len(b)+1), b...)
+						v = vkEnc(b)
 					}
 					if len(seen[t][cur]) < 32 {
 						seen[t][cur][v] = struct{}{}
 					}
-					n++
 				}
 				if first {
 					first = false
@@ -245,11 +274,18 @@ func vkConc(reps []*vkReplica, keys [][]byte, f []string) string {
 			}
 		}(t)
 	}
-	for dl := time.Now().Add(5 * time.Second); atomic.LoadInt32(&started) < int32(nthr) && time.Now().Before(dl); {
+	for dl := time.Now().Add(5 * time.Second); atomic.LoadInt32(&started) < 1 && time.Now().Before(dl); {
 		runtime.Gosched()
 	}
+	if inner[0] == "R" {
+		r.atEnd = fire
+	} else {
+		fire()
+	}
 	out := vkOp(reps, keys, inner)
+	r.atEnd = nil
 	atomic.StoreInt32(&stop, 1)
+	fire()
 	wg.Wait()
 	var sb strings.Builder
 	fmt.Fprintf(&sb, "C %d", total)
@@ -311,23 +347,23 @@ func vkOp(reps []*vkReplica, keys [][]byte, f []string) (out string) {
 					runtime.GC()
 				}
 				if _, err := r.kv.Update(e); err != nil {
-					return "U err"
+					return "U err " + vkMsg(err)
 				}
 			}
 		case "ckv":
 			if _, err := r.ckv.Update(ents); err != nil {
-				return "U err"
+				return "U err " + vkMsg(err)
 			}
 		default:
 			if _, err := r.dkv.Update(ents); err != nil {
-				return "U err"
+				return "U err " + vkMsg(err)
 			}
 		}
 		return "U ok"
 	case "L":
 		v, err := r.lookup(vkDec(f[2]))
 		if err != nil {
-			return "L err"
+			return "L err " + vkMsg(err)
 		}
 		return "L " + v
 	case "S":
@@ -335,7 +371,7 @@ func vkOp(reps []*vkReplica, keys [][]byte, f []string) (out string) {
 			return "S na"
 		}
 		if err := r.dkv.Sync(); err != nil {
-			return "S err"
+			return "S err " + vkMsg(err)
 		}
 		return "S ok"
 	case "P":
@@ -349,7 +385,7 @@ func vkOp(reps []*vkReplica, keys [][]byte, f []string) (out string) {
 			r.ctx, err = r.dkv.PrepareSnapshot()
 		}
 		if err != nil {
-			return "P err"
+			return "P err " + vkMsg(err)
 		}
 		r.has = true
 		return "P ok"
@@ -374,7 +410,7 @@ func vkOp(reps []*vkReplica, keys [][]byte, f []string) (out string) {
 			err = r.dkv.SaveSnapshot(r.ctx, &buf, done)
 		}
 		if err != nil {
-			return "V err"
+			return "V err " + vkMsg(err)
 		}
 		r.snap = buf.Bytes()
 		r.hasS = true
@@ -384,7 +420,10 @@ func vkOp(reps []*vkReplica, keys [][]byte, f []string) (out string) {
 		if si < 0 || si >= len(reps) || !reps[si].hasS {
 			return "R nosnap"
 		}
-		rd := bytes.NewReader(reps[si].snap)
+		rd := &vkSigReader{r: bytes.NewReader(reps[si].snap), fire: r.atEnd}
+		if len(f) > 3 {
+			rd.chunk, _ = strconv.Atoi(f[3])
+		}
 		var err error
 		done := make(chan struct{})
 		switch r.kind {
@@ -396,7 +435,7 @@ func vkOp(reps []*vkReplica, keys [][]byte, f []string) (out string) {
 			err = r.dkv.RecoverFromSnapshot(rd, done)
 		}
 		if err != nil {
-			return "R err"
+			return "R err " + vkMsg(err)
 		}
 		r.has = false // convention shared with the model: a snapshot context does not survive a recovery
 		return "R ok"
@@ -405,24 +444,24 @@ func vkOp(reps []*vkReplica, keys [][]byte, f []string) (out string) {
 			return "O na"
 		}
 		if err := r.dkv.Close(); err != nil {
-			return "O err"
+			return "O err " + vkMsg(err)
 		}
 		r.has = false
 		idx, err := vkOpenDisk(r)
 		if err != nil {
-			return "O err"
+			return "O err " + vkMsg(err)
 		}
 		return "O " + strconv.FormatUint(idx, 10)
 	case "H":
 		h, err := r.hasher().GetHash()
 		if err != nil {
-			return "H err"
+			return "H err " + vkMsg(err)
 		}
 		return fmt.Sprintf("H %016x", h)
 	case "D":
 		h, err := r.hasher().GetHash()
 		if err != nil {
-			return "D err"
+			return "D err " + vkMsg(err)
 		}
 		var sb strings.Builder
 		fmt.Fprintf(&sb, "D %016x", h)
